@@ -79,12 +79,13 @@ ODD = ["a.b", ".", "", "a.", "a", BS, "a" + BS, BS + ".", BS + BS]
 
 @H.ob(model="none", quick=300, thorough=600,
       targets=("clematis/engine/util/snapshot_delta.py:compute_delta", "clematis/engine/util/snapshot_delta.py:apply_delta"),
-      bounds="one top-level key chosen by symbolic index from 9 odd keys (dots, empty, trailing dot, the escape character itself: backslash, trailing backslash, backslash-dot, double backslash) plus the plain key 'n' holding a nested dict whose inner key is again chosen from that alphabet; top-level values from the value alphabet or absent, nested values from {1, {x:1}, absent} on both sides",
-      split={"ki": list(range(9)), "kn": list(range(9))},
+      bounds="one top-level key chosen by symbolic index from 9 odd keys (dots, empty, trailing dot, the escape character itself: backslash, trailing backslash, backslash-dot, double backslash) plus the plain key 'n' holding a nested dict whose inner key is again chosen from that alphabet (quick: the same odd key or the plain key; thorough: every pair); top-level values from the value alphabet or absent, nested values from {1, {x:1}, absent} on both sides",
+      split=({"ki": list(range(9)), "kn": list(range(9))} if H.THOROUGH else {"ki": list(range(9))}),
       note="C07.a round-trip law for keys with dots / empty strings / backslashes (top level and nested, with changes below them)")
 def law_odd_keys(ki: int, kn: int, bv: int, cv: int, bn: int, cn: int) -> bool:
     """
     pre: 0 <= ki <= 8 and 0 <= kn <= 8 and 0 <= bv <= NV and 0 <= cv <= NV and 0 <= bn <= 2 and 0 <= cn <= 2
+    pre: H.THOROUGH or kn == ki or kn == 4
     post: _
     """
     vals = _vals()
